@@ -19,7 +19,14 @@ class C15(Check):
             "(HMAC-SHA256 via dns.TsigGenerate); faults at every envelope of every composition of small streams: wrong "
             "ID, RCODE, EOF, cut frame, non-SOA first, empty first; TSIG faults at every position: tamper, unsigned, "
             "wrong secret, unknown key, bad time, wrong form, wrong previous MAC, drop, swap, duplicate; close at every "
-            "octet; malformed senders; 500 random read sequences. A case is the (kind, tsig, query, read list) tuple; "
+            "octet; malformed senders; 500 random read sequences; wire-level edits of a signed envelope at every "
+            "envelope of every composition (MAC cut to every length below the full one for the five HMAC algorithms, MAC "
+            "bits / extension / replacement, Original ID, time, fudge, key name, algorithm, error, other data, class, TTL, "
+            "TSIG removed / moved / repeated / followed or preceded by a record), chains signed by the harness's own RFC "
+            "8945 signer; header ID differing from the query's in either octet at every envelope with no TSIG record, "
+            "with a TSIG record whose Original ID is the query's / the header's / neither, MAC valid, empty or stale, "
+            "receiver with and without key; every RCODE 1..15 at every envelope, sent or set on the path. A case is the "
+            "(kind, tsig, query, read list) tuple; "
             "non-trivial when at least two reads; distinct by hash of (function, arguments, output).")
     partial = [
         "closing of channel and connection, and that nothing is read after the closing SOA, are observed on the "
